@@ -29,6 +29,15 @@ def build(HashTable, c, p):
     return t
 
 
+def _qint(x, kd):
+    """a python integer for a scalar query: 8-bit vectors are read in the key dtype's signedness"""
+    if common.SYMBOLIC and not isinstance(x, (int, bool)):
+        import z3
+        if z3.is_bv(x):
+            x = z3.BV2Int(x, is_signed=kd.startswith("int"))
+    return pyint(x)
+
+
 def run_op(c, p):
     from npstructures import HashTable, HashSet
     op, kd = p["op"], p.get("kdtype", "int64")
@@ -36,19 +45,22 @@ def run_op(c, p):
         kw = {} if c["mod"] is None else {"mod": c["mod"]}
         hs = HashSet(arr(c["keys"], kd), **kw)
         if p.get("scalar"):
-            return hs.contains(pyint(c["q"][0])), None
-        return hs.contains(arr(c["q"], kd)), None
+            return hs.contains(_qint(c["q"][0], kd)), None
+        return hs.contains(arr(c["q"], p.get("qdtype", kd))), None
     t = build(HashTable, c, p)
+    for how in p.get("like", ()):
+        # a table derived from a table (possibly from a derived one): all keys, every value 0 / 1; it is written and read below
+        t = (np.zeros_like if how == "zeros" else np.ones_like)(t)
     keys = arr(c["keys"], kd)
     res = None
     if op == "get1":
-        res = t[pyint(c["q"][0])]
+        res = t[_qint(c["q"][0], kd)]
         if hasattr(res, "ravel"):
             res = res.ravel()           # the library answers a single key with a one-element array: accepted
     elif op == "getv":
         res = t[arr(c["q"], p.get("qdtype", kd))] if not p.get("aslist") else t[[pyint(x) for x in c["q"]]]
     elif op == "set1":
-        t[pyint(c["q"][0])] = pyint(c["v"][0])
+        t[_qint(c["q"][0], kd)] = pyint(c["v"][0])
     elif op == "setv":
         t[arr(c["q"], p.get("qdtype", kd))] = arr(c["v"], "int64") if p.get("vvec") else pyint(c["v"][0])
     elif op == "contains":
@@ -112,6 +124,8 @@ def sym(E, p, kf):
     keys, vals, op = c["keys"], c["vals"], p["op"]
     n = len(keys)
     val_of = (lambda i: vals[i]) if p["state"] == "array" else (lambda i: vals[0])
+    if p.get("like"):
+        val_of = lambda i: z3.IntVal(0 if p["like"][-1] == "zeros" else 1)
     q = c.get("q", [])
     signed_key = p.get("kdtype", "int64") == "int8"
 
@@ -128,7 +142,7 @@ def sym(E, p, kf):
         return out
     if op in ("get1", "set1"):
         E.assume(present[0])          # scalar access to an absent key is outside the claim (the library returns an empty array)
-    if "KF-C11-1" in kf and p["state"] == "scalar" and op == "getv":
+    if "KF-C11-1" in kf and (p["state"] == "scalar" or p.get("like")) and op == "getv":
         E.assume(z3.And(*present) if present else True)      # open known finding: scalar-valued tables do not check membership
     if op == "setv" and len(q) > 1:
         E.assume(z3.Distinct(*q))     # repeated targets: numpy leaves the winner unspecified
@@ -192,7 +206,7 @@ def sym(E, p, kf):
 
 def kf_match(case):
     p, c = case["p"], case["c"]
-    if p["state"] == "scalar" and p["op"] == "getv" and any(x not in c["keys"] for x in c.get("q", [])):
+    if (p["state"] == "scalar" or p.get("like")) and p["op"] == "getv" and any(x not in c["keys"] for x in c.get("q", [])):
         return ["KF-C11-1"]
     return []
 
@@ -215,6 +229,8 @@ def conc(case):
     n = len(keys)
     got = outcome(lambda: run_op(c, p))
     d = {k: (vals[i] if p["state"] == "array" else vals[0]) for i, k in enumerate(keys)}
+    if p.get("like"):
+        d = {k: (0 if p["like"][-1] == "zeros" else 1) for k in keys}
     q = c.get("q", [])
     A = common.ref_array
     res = {"k": "none"}
@@ -281,6 +297,16 @@ def jobs(tier, seed):
         out.append(dict(base, op="getv", state="array", kdtype=kd, qdtype="int64", nq=1, defaultmod=False))
         out.append(dict(base, op="setv", state="array", kdtype=kd, qdtype="int64", nq=1, defaultmod=False))
         out.append(dict(base, op="contains", state="array", kdtype=kd, qdtype="int64", nq=1, defaultmod=False))
+        out.append(dict(base, op="hs_contains", state="scalar", kdtype=kd, qdtype="int64", nq=1, defaultmod=False))
+    # tables derived by zeros_like / ones_like (also from derived and from scalar-valued ones), then written and read
+    for kd in ("int64", "uint8"):
+        for state in ("array", "scalar"):
+            for like in (["zeros"], ["ones"], ["zeros", "zeros"], ["ones", "zeros"]):
+                if q and kd == "int64" and len(like) == 2:
+                    continue
+                out.append(dict(base, op="setv", state=state, kdtype=kd, like=like, vvec=True, nq=1 if kd != "int64" else base["nq"]))
+        out.append(dict(base, op="getv", state="array", kdtype=kd, like=["ones"], nq=1))
+        out.append(dict(base, op="set1", state="scalar", kdtype=kd, like=["zeros", "ones"]))
     return [dict(h="C11.table", p=p) for p in out]
 
 
